@@ -26,6 +26,7 @@ import vf
 
 sys.path.insert(0, os.path.join(vf.ROOT, "gen"))
 import doc_mutate as dm  # noqa: E402
+import doc_sweep as ds  # noqa: E402
 
 RES = os.path.join(vf.REPO, "tests", "resources")
 ASAN = "detect_leaks=0:allocator_may_return_null=1:handle_abort=1"
@@ -341,14 +342,22 @@ def make_inputs(ctx, quick):
     if os.path.isdir(cdir):
         for f in sorted(os.listdir(cdir)):
             inputs.append((os.path.join(cdir, f), cdir + "/", "regression", f))
+    # deterministic sweeps over valid base models: vocabulary of every table, near-miss numbers, size stress
+    tables = ds.read_tables(vf.REPO)
+    sweeps = ds.vocabulary_sweep(tables) + ds.nearmiss_sweep() + ds.stress_sweep() + ds.xmlfeature_sweep()
+    for k, (label, doc) in enumerate(sweeps):
+        p = os.path.join(indir, "s%05d.cellml" % k)
+        with open(p, "wb") as f:
+            f.write(doc)
+        inputs.append((p, indir + "/", label, "sweep"))
     data = {}
     weights = []
     for p in files:
         b = open(p, "rb").read()
         data[p] = b
         weights.append(1.0 if len(b) < 6000 else (0.3 if len(b) < 30000 else (0.03 if len(b) < 64 * 1024 else 0.0)))
-    n_mut = 2000 if quick else 18000
-    n_raw = 300 if quick else 2000
+    n_mut = 1500 if quick else 18000
+    n_raw = 250 if quick else 2000
     n = 0
     for k in range(n_mut + n_raw):
         src = rng.choices(files, weights)[0]
